@@ -113,6 +113,23 @@ def examine(ctx, recipe, items) -> None:
         if len(truth) >= 2 or cls in ('hole', 'just-outside', 'far') or not truth:
             ctx.nontrivial((str(recipe), ps))
         ctx.count(f'class:{cls}:hits={min(len(truth), 3)}')
+        # ---- the older entry point to the same index (`Convention.spatial_index`, deprecated but public): its
+        # records, refined with `intersects` as its documentation prescribes, name the same cells coherently
+        try:
+            recs = c.spatial_index.query(pt)
+            refined = sorted(int(r['data'].linear_index) for r in recs
+                             if r['data'].polygon is not None and r['data'].polygon.intersects(pt))
+            bad = [int(r['data'].linear_index) for r in recs
+                   if r['data'].polygon is None or r['geom'] is not r['data'].polygon
+                   or polys[int(r['data'].linear_index)] is not r['data'].polygon
+                   or int(c.ravel_index(r['data'].index)) != int(r['data'].linear_index)]
+        except Exception as e:
+            refined, bad = f'ERR {type(e).__name__}', []
+        ctx.evaluated()
+        if refined != truth:
+            ctx.oracle_fail('spatial-index-differs', desc, f'cells {truth} intersect {ps}; spatial_index refined gives {refined}')
+        elif bad:
+            ctx.oracle_fail('spatial-index-incoherent-record', desc, f'records of cells {bad}: polygon / native index / linear index do not describe one cell')
         # ---- direct oracle --------------------------------------------------
         if not truth:
             if item not in (None,):
